@@ -33,6 +33,12 @@ ASSUMPTIONS = [
     'pyvc itself (AST -> SMT encoding of the Python subset) is trusted; cross-checked by replaying counter-models '
     'and by the mutation self-test',
     'log.*(...) / print(...) calls and docstrings are dropped (assumed effect-free)',
+    'unknown values: len/isinstance/callable/is/subscript of a value the verifier knows nothing about are unknown but functional '
+    '(the same question about the same value gets the same answer until an opaque, non-pure call happens)',
+    'constructor calls return objects different from every value already bound to a name',
+    'SRS.transform_bbox_to (pyproj) maps a proper rectangle to a proper rectangle (assumed where TileGrid.get_affected_bbox_and_level '
+    'reprojects the request)',
+    'io buffering: a write is in the process until the handle seeks, reads, flushes or closes (filemodel f_durable)',
 ]
 PROP_ASSUMPTIONS = {}
 NOT_COVERED = {}
